@@ -880,8 +880,8 @@ func (x *Exec) modsOfCall(call *ast.CallExpr, ms *modSet) {
 	eff := x.externalEffect(fn)
 	switch eff {
 	case effPure:
-	case effAlloc:
-		ms.allocs = true
+	case effAlloc, effFSRead, effFSWrite:
+		ms.allocs = true // opaque results; the program heap is untouched (file-system effects are ghost state)
 	default:
 		ms.all = true
 	}
